@@ -237,7 +237,46 @@ def histories_for(rng, names, quick):
     return hs
 
 
+def failed_constructions(ctx):
+    """a constructor that raises has not taken the caller's file over: a file object handed in stays open and usable"""
+    import io
+    im = CC.images()
+    from pyctr.type.ncch import NCCHReader
+    from pyctr.type.cia import CIAReader
+    from pyctr.type.cci import CCIReader
+    from pyctr.type.exefs import ExeFSReader
+    from pyctr.type.romfs import RomFSReader
+    from pyctr.type.save.disa import DISA
+    from pyctr.type.save.diff import DIFF
+    readers = [('ncch', NCCHReader, im['ncch']), ('cia', CIAReader, im['cia']), ('cci', CCIReader, im['cci']), ('disa', DISA, im['disa']),
+               ('diff', DIFF, im['diff']), ('exefs', ExeFSReader, im['exefs']), ('romfs', RomFSReader, im['romfs'])]
+    for why in ('no-bootrom', 'garbage'):
+        pyenv.uninstall_fake_boot9()          # no boot ROM keys anywhere: the readers that need a crypto engine cannot make one
+        for name, cls, image in readers:
+            data = image if why == 'no-bootrom' else bytes(b ^ 0x5A for b in image[:0x400]) + image[0x400:]
+            f = io.BytesIO(data)
+            case = dict(cfg=[name, 'obj', None], construction=why)
+            ctx.case(case)
+            try:
+                r = cls(f)
+            except Exception as ex:
+                ctx.stat('failed_constructions')
+                usable = not f.closed
+                if usable:
+                    try:
+                        f.seek(0)
+                        f.read(1)
+                    except Exception:
+                        usable = False
+                if not usable:
+                    ctx.diff('oracle', f'ctor-failure-closes:{name}', case, 'the file object stays open', 'closed',
+                             f'{cls.__name__}(file object) raised {pyenv.errname(ex)} and left the caller\'s file object closed')
+            else:
+                r.close()
+
+
 def run(ctx):
+    failed_constructions(ctx)
     mr = ModelRunner()
     instances = []
     quick = ctx.tier == 'quick'
